@@ -101,6 +101,21 @@ impl PerVisibleAlphabetConstraints {
         match element {
             None => Ok(None),
             Some(SubtypeElements::PermittedAlphabet(elem_or_set)) => {
+                // ITU-T X.691 clause 10.3.10: an extensible permitted alphabet is not PER-visible.
+                // The marker that ends the set inside `FROM (.., ...)` sits on its last element.
+                fn ends_with_marker(set: &ElementOrSetOperation) -> bool {
+                    match set {
+                        ElementOrSetOperation::Element(
+                            SubtypeElements::SingleValue { extensible, .. }
+                            | SubtypeElements::ValueRange { extensible, .. },
+                        ) => *extensible,
+                        ElementOrSetOperation::Element(_) => false,
+                        ElementOrSetOperation::SetOperation(op) => ends_with_marker(&op.operant),
+                    }
+                }
+                if ends_with_marker(elem_or_set) {
+                    return Ok(None);
+                }
                 let mut result = PerVisibleAlphabetConstraints::default_for(string_type);
                 match &**elem_or_set {
                     ElementOrSetOperation::Element(e) => {
